@@ -4,6 +4,7 @@ import Jwt.Checker
 import Jwt.SetGet
 import Jwt.Builder
 import Jwt.Lemmas.Pipeline
+import Jwt.Lemmas.PipelineBuilder
 /-!
 # C14 — error reporting contract: failure is always flagged and explained
 
@@ -124,5 +125,12 @@ theorem C14_verify_returns_are_source (a b c d e f g h i : Bool) (n : Nat) :
     (Jwt.Generated.Pipeline.checkerVerify false true c d e f g h i n = (1, true, false)) ∧
     (Jwt.Generated.Pipeline.checkerVerify false false true d e f g h i n = (1, true, false)) := by
   refine ⟨checkerVerify_returns a b c d e f g h i n, ?_, ?_⟩ <;> simp [Jwt.Generated.Pipeline.checkerVerify]
+
+/-- **`jwt_builder_generate`'s exits are the source's**: the per-token object's error state is copied to the builder
+on exactly the exits the model does not mark `direct`; on the others (allocation, callback, admission) the generated
+code has written the builder's message itself. -/
+theorem C14_generate_exits_are_source (env : Env) (b : Builder) :
+    ((builderGenerateGen env b.cfg).2.2 = true ↔ ∀ e, (generateCore env b.cfg).1 ≠ .direct e) :=
+  (builderGenerate_generated env b).2
 
 end Jwt.Props.C14
